@@ -187,6 +187,27 @@ func Build(rng *rand.Rand, cfg ScenarioCfg) *Scenario {
 		e.Apply(ds)
 		s.Daemons = append(s.Daemons, ds)
 		s.Desc["selectiveDaemonSet"] = what
+		if rng.Intn(3) == 0 {
+			// a second team runs a DaemonSet of the same NAME in its own namespace, for other nodes and with other requests
+			// (no pods of either exist yet: the provisioner works from the templates)
+			var opt2 gen.PodOpt
+			what2 := ""
+			switch rng.Intn(3) {
+			case 0:
+				it := shared[rng.Intn(len(shared))]
+				opt2, what2 = gen.WithNodeSelector(corev1.LabelInstanceTypeStable, it.Name), "instance type "+it.Name
+			case 1:
+				opt2, what2 = gen.WithRequiredTerms([]corev1.NodeSelectorRequirement{gen.NSR(corev1.LabelArchStable, corev1.NodeSelectorOpIn, "amd64")}), "arch amd64"
+			default:
+				opt2, what2 = gen.WithRequiredTerms([]corev1.NodeSelectorRequirement{gen.NSR(corev1.LabelInstanceTypeStable, corev1.NodeSelectorOpNotIn, shared[rng.Intn(len(shared))].Name)}), "all but one instance type"
+			}
+			twin := gen.DaemonSet("ds-selective", []int64{50, 1500, 2500}[rng.Intn(3)], []int64{32, 1024, 2048}[rng.Intn(3)], opt2, gen.WithToleration(corev1.Toleration{Operator: corev1.TolerationOpExists}))
+			twin.Namespace = "team-b"
+			twin.UID = "DaemonSet-team-b-ds-selective"
+			e.Apply(twin)
+			s.Daemons = append(s.Daemons, twin)
+			s.Desc["selectiveDaemonSetTwinInOtherNamespace"] = what2
+		}
 	}
 	s.describe(cfg)
 	return s
@@ -280,6 +301,9 @@ func (s *Scenario) StartDaemons(nodeName string) {
 		}
 		d.Name = fmt.Sprintf("%s-%s", d.Name, nodeName)
 		d.UID = types.UID("pod-" + d.Name)
+		if d.Namespace != "default" {
+			d.UID = types.UID("pod-" + d.Namespace + "-" + d.Name)
+		}
 		gen.Bound(nodeName, e.Clock.Now())(d)
 		e.Apply(d)
 	}
